@@ -110,6 +110,10 @@ def gen_optstr(rng):
         s = b' pad=' + b'x' * n + (b', k=v' if rng.chance(0.5) else b'')
     elif k == 4 and s:
         s = s + b'\r'            # a stray CR at the end of the line
+    elif k == 6 and rng.chance(0.5):
+        # more than one '=' in what stands between two ", "
+        s = rng.choice([b' a=b=c=d', b' a=1=b=2=c=3', b' k=v=w', b' a==b',
+                        b' a=b, c=d=e=f', b' x=1, y=2=z=3', b' a=b=c'])
     elif k == 5 and rng.chance(0.6):
         # long *malformed* lines (the refusal has to cope with them too):
         # no blank after the colon, a symbol outside the grammar at the
